@@ -82,3 +82,16 @@ Theorem compact_never_out_of_fuel : forall fs,
   Forall (fun f => sorted_gt 0 (f_pages f)) fs -> compact fs <> Err E_FUEL.
 Proof. exact Proofs.compact_fuel. Qed.
 Print Assumptions compact_never_out_of_fuel.
+
+(** store level (Store/Ops.v: sync-upload, Compactor.Compact with its position cache,
+    Store.CompactDB's guards, DB.Snapshot): over ALL retention-free histories, for any level
+    layout, [LC] holds after every step — all L0 files 1..pos are present; every level 1..8 is
+    an exact chain from TXID 1 (sorted, non-overlapping, next.min = prev.max+1: each new file
+    started where the previous one of its level ended); every file of level L ends where a
+    file of level L-1 ends. *)
+Require LS.Store.CompactProofs.
+Theorem levels_contiguous : forall ret nlv ops,
+  Forall LS.Store.CompactProofs.op_nr ops ->
+  LS.Store.CompactProofs.LC (LS.Store.Ops.run (LS.Store.Ops.init_state ret nlv) ops).
+Proof. exact LS.Store.CompactProofs.levels_contiguous. Qed.
+Print Assumptions levels_contiguous.
